@@ -1354,6 +1354,8 @@ class AffInterp:
             if base == "range":
                 if len(args) == 1 and isinstance(args[0], Sym):
                     return SymRange(args[0].name)
+                if not all(isinstance(a, (int, Fraction)) and not isinstance(a, bool) and Fraction(a).denominator == 1 for a in args):
+                    raise AnalysisError("%s:%d range() over bounds the analysis does not resolve to integers (%s)" % (func.qualname, ln, ", ".join(type(a).__name__ for a in args)))
                 return range(*[int(a) for a in args])
             if base == "enumerate":
                 return list(enumerate(self.iterate(args[0], node, func)))
